@@ -34,14 +34,17 @@ META = {
         "a window is compared only if the instrumented run had the same outcome kind/exception type as the original run and the "
         "tracer neither raised into the subject nor was left disabled (C01/C04/C05 territory; counted as excluded)",
         "str.startswith/endswith with tuple arguments are not generated (known C01 defect of the dynamic-seeding adapter)",
-        "registration completeness (every executable line is a goal) is C08's subject and is not demanded here",
+        "registration completeness (every executable line is a goal) is C08's subject and is not demanded here (only: a module that "
+        "executes lines has at least one line goal)",
+        "metric subsets {LINE} and {LINE, BRANCH}; the CHECKED subsets of the design are switched off (PLAN 'checked'): the CHECKED "
+        "adapter changes program behaviour (slices), fails on 'with' and crashes the interpreter on inlined comprehensions (C01)",
     ],
     "level_text": "Generated programs x inputs against an independent interpreter-level oracle; exploration, not proof.",
     "level_note": "Trusted: CPython's sys.monitoring, the compile()d line tables, vf.gen.pygen's renderer.",
 }
 PLAN = {
-    "quick": {"shards": 16, "examples": 480, "max_stmts": 14, "max_funcs": 2},
-    "thorough": {"shards": 16, "examples": 16000, "timeout": 3000, "max_stmts": 25, "max_funcs": 3, "checked": True},
+    "quick": {"shards": 16, "examples": 320, "max_stmts": 14, "max_funcs": 2},
+    "thorough": {"shards": 16, "examples": 8000, "timeout": 3000, "max_stmts": 25, "max_funcs": 3, "checked": False},
 }
 FEATURES = set(pygen.FEATURES) - {"strtuple"}
 
@@ -53,10 +56,16 @@ def strategy(ctx) -> st.SearchStrategy:
     subsets = [["LINE"], ["BRANCH", "LINE"]]
     strat = st.tuples(base, st.sampled_from(subsets))
     if p.get("checked"):
-        # CHECKED instrumentation fails on every ``with`` ("block 0 is not part of this bytecode", known C01 finding)
-        nowith = pygen.case_strategy(FEATURES - {"with"}, max_funcs=p.get("max_funcs", 2), max_stmts=p.get("max_stmts", 14),
-                                     per_target=2, values="tame", mismatch=6)
-        strat = st.one_of(strat, strat, st.tuples(nowith, st.sampled_from([["CHECKED", "LINE"], ["BRANCH", "CHECKED", "LINE"]])))
+        # Known C01 findings of the CHECKED adapter, excluded by construction: it fails on every ``with`` ("block 0 is not
+        # part of this bytecode") and crashes the interpreter on every inlined comprehension (it emits a LOAD_FAST of the
+        # still unbound comprehension variable in front of LOAD_FAST_AND_CLEAR and passes the NULL to the tracer).
+        # It also changes what ``seq[a:b]`` evaluates to (BINARY_SLICE operands get shuffled: 'abc'[:0] == 'abc'), so
+        # slices/subscripts are left out as well.  With these three defects the CHECKED subsets are off by default
+        # (PLAN[...]["checked"]); switch them on once the adapter is repaired.
+        plain = pygen.case_strategy(FEATURES - {"with", "comp", "subscript"}, max_funcs=p.get("max_funcs", 2), max_stmts=p.get("max_stmts", 14),
+                                    per_target=2, values="tame", mismatch=6)
+        checked = st.tuples(plain, st.sampled_from([["CHECKED", "LINE"], ["BRANCH", "CHECKED", "LINE"]]))
+        strat = checked if p.get("checked") == "only" else st.one_of(strat, strat, checked)
     return strat.map(lambda t: {"module": t[0]["module"], "calls": t[0]["calls"], "metrics": t[1]})
 
 
